@@ -5,6 +5,8 @@ pub mod c07;
 pub mod c08;
 pub mod c09;
 pub mod c10;
+pub mod c11;
+pub mod c12;
 pub mod c13;
 pub mod c14;
 pub mod c15;
@@ -23,6 +25,8 @@ pub fn run(prop: &str, tier: &str, replay: Option<&str>) -> i32 {
         "C08" => c08::run(prop, tier, replay),
         "C09" => c09::run(prop, tier, replay),
         "C10" => c10::run(prop, tier, replay),
+        "C11" => c11::run(prop, tier, replay),
+        "C12" => c12::run(prop, tier, replay),
         "C13" => c13::run(prop, tier, replay),
         "C14" => c14::run(prop, tier, replay),
         "C15" => c15::run(prop, tier, replay),
